@@ -268,3 +268,18 @@ pub proof fn lemma_total_mono(es: Seq<Mat>, a: int, b: int)
 {
   if b > 0 { if a < b { lemma_total_mono(es, a, b - 1); } else { lemma_total_mono(es, a - 1, b - 1); } }
 }
+
+// total number of rows of the first n blocks
+pub open spec fn rsum(es: Seq<Mat>, n: int) -> int
+  decreases n,
+{
+  if n <= 0 { 0 } else { rsum(es, n - 1) + es[n - 1].r }
+}
+
+pub proof fn lemma_rsum_mono(es: Seq<Mat>, a: int, b: int)
+  requires 0 <= a <= b,
+  ensures 0 <= rsum(es, a) <= rsum(es, b),
+  decreases b,
+{
+  if b > 0 { if a < b { lemma_rsum_mono(es, a, b - 1); } else { lemma_rsum_mono(es, a - 1, b - 1); } }
+}
